@@ -669,10 +669,17 @@ func genRandomCF(rng *rand.Rand, n int) (cases []string) {
 			if hl > 0 {
 				a := rng.IntN(hl)
 				b := a + rng.IntN(hl-a+1)
+				if rng.IntN(8) == 0 {
+					a, b = 0, hl // the needle is (a fold variant of) the whole haystack
+				}
 				needle = variantOf(rng, hay[a:b])
 			}
 		}
 		cases = append(cases, mkCF(string(hay), string(needle)))
+		if rng.IntN(16) == 0 {
+			// the operands the other way round, and a haystack that is the needle twice
+			cases = append(cases, mkCF(string(needle), string(hay)), mkCF(string(needle)+string(needle), string(needle)))
+		}
 	}
 	return cases
 }
